@@ -201,7 +201,7 @@ vt_proof! { unwind = 37; fn c33_two_rows_sequence() {
     kani::cover!(matches!(row2[0], Value::Int(0)), "w:second_row_one_byte_value");
     core::mem::forget((buf, out, row1, row2));
 }}
-// @vt prop=C33 tier=quick bound="two rows in one buffer: [positive i64] then [positive i64, Null]; then a read at end of buffer" outside="other variants in a sequence (every variant is decided singly in c33_rt_*); zero / negative ints in the sequence (thorough)" timeout=1800
+// @vt prop=C33 tier=quick bound="two rows in one buffer: [positive i64] then [positive i64, Null]; then a read at end of buffer" outside="other variants in a sequence (every variant is decided singly in c33_rt_*); zero / negative ints in the sequence (thorough)" timeout=3600
 vt_proof! { unwind = 37; fn c33_two_rows_sequence_positive() {
     let x: i64 = kani::any(); kani::assume(x > 0);
     let y: i64 = kani::any(); kani::assume(y > 0);
